@@ -59,10 +59,14 @@ pub fn discover() -> Report {
         let sm = b.into_sourcemap();
         let url = match sm.to_data_url() { Ok(u) => u, Err(e) => return r("discover", bound, cases, Some(format!("to_data_url: {e}"))) };
         let view = |m: &SourceMap| m.tokens().map(|t| (t.get_dst(), t.get_source().map(|s| s.to_string()), t.get_src(), t.get_name().map(|s| s.to_string()))).collect::<Vec<_>>();
-        let text = format!("var x;\n//# sourceMappingURL={blank}{url}\n");
-        let found = locate_sourcemap_reference_slice(text.as_bytes()).ok().flatten();
-        let emb = found.as_ref().and_then(|f| f.get_embedded_sourcemap().ok().flatten());
-        for (what, dm) in [("decode_data_url", guarded(|| decode_data_url(&url)).ok().and_then(|x| x.ok())), ("discovered + get_embedded_sourcemap", emb)] {
+        let mut embs = vec![];
+        for form in ["//#", "//@"] {
+            let text = format!("var x;\n{form} sourceMappingURL={blank}{url}\n");
+            let found = locate_sourcemap_reference_slice(text.as_bytes()).ok().flatten();
+            embs.push(found.as_ref().and_then(|f| f.get_embedded_sourcemap().ok().flatten()));
+        }
+        let emb_legacy = embs.pop().unwrap(); let emb = embs.pop().unwrap();
+        for (what, dm) in [("decode_data_url", guarded(|| decode_data_url(&url)).ok().and_then(|x| x.ok())), ("discovered from a //# comment + get_embedded_sourcemap", emb), ("discovered from a legacy //@ comment + get_embedded_sourcemap", emb_legacy)] {
             match dm { Some(DecodedMap::Regular(m2)) => { if view(&m2) != view(&sm) { return r("discover", bound, cases, Some(format!("{what}: map with {ntok} tokens, root {root:?} comes back different"))); } }
                 _ => return r("discover", bound, cases, Some(format!("{what} fails for the library's own data URL ({ntok} tokens, root {root:?}): {}", &url[..url.len().min(60)]))) }
         }
